@@ -14,6 +14,9 @@ class C05Check(ExplainerCheck):
     def gen(self, seed, tier, run_index):
         rng = seeds.run_rng(seed, self.prop, tier, run_index)
         kinds = ["str", "int", "float", None]
+        if run_index % 500 == 231:
+            # more than a thousand explained rows (block-wise evaluation with a partial last block)
+            return gen_batch_plan(rng, self.prop, huge=True, names_kind="str", classes=["batch"])
         big = run_index % 40 == 17
         if big:
             return gen_batch_plan(rng, self.prop, big=True, names_kind=kinds[run_index % 4], classes=["batch"])
